@@ -118,7 +118,9 @@ def mon_c08_infer(case, verdict, chk):
         det = {}
     tag = "infer:%s" % ("refused" if "infer_err" in case else ("accepted" if case.get("accepted") else "schema-rejects-own-value"))
     chk.hist[tag] = chk.hist.get(tag, 0) + 1
-    chk.hist["infer-shape:" + str(case.get("shape"))[:40]] = chk.hist.get("infer-shape:" + str(case.get("shape"))[:40], 0) + 1
+    sh = str(case.get("shape"))
+    coarse = sh.split("(")[0].split("/")[0] + ("-of-" + sh.split("(")[1].split("/")[0].split(")")[0] if "(" in sh and not sh.startswith("list()") else "")
+    chk.hist["infer-shape:" + coarse] = chk.hist.get("infer-shape:" + coarse, 0) + 1
     if "infer_err" in case or case.get("accepted") is not False:
         return
     replay = {"kind": "impl-counterexample", "case": case, "model": det,
